@@ -554,11 +554,11 @@ func bxvValues() []interface{} {
 		[]byte("abc"), []bxvOctet{97, 98}, []float32{1.5}, []bool{true}, []uint8{1}, []bxvNamedStr{"abc"},
 		map[string]int{"abc": 1}, map[string]string{}, map[int]string{1: "a"}, map[bxvNamedStr]int{"abc": 1}, map[interface{}]int{"abc": 1, 1: 2}, map[float64]int{1.5: 1}, map[bool]int{true: 1}, nilMap,
 		pi, ppi, nilp, &s, nilIface, make(chan int), func() {}, struct{}{}, bxvInner{A: "abc", N: 1}, &bxvInner{A: "abc"},
-		json.Number("1"), json.Number("1.5"), json.Number("x"), []json.Number{"1"},
+		json.Number("1"), json.Number("1.5"), json.Number("x"), []json.Number{"1"}, json.Number("9007199254740993"), int64(9007199254740993), uint64(18446744073709551615), float64(9007199254740992),
 	}
 }
 
-var bxvLits = []string{"1", "abc", "true", "1.5", "-2", "0x1", "a.*", "[", "1e39", "1.000000059604644775390626", ""}
+var bxvLits = []string{"1", "abc", "true", "1.5", "-2", "0x1", "a.*", "[", "1e39", "1.000000059604644775390626", "", "9007199254740993", "9007199254740992", "18446744073709551615"}
 
 var bxvOps = []string{"X == %s", "X != %s", "%s in X", "%s not in X", "X contains %s", "X is empty", "X is not empty", "X matches %s", "X not matches %s"}
 
@@ -861,8 +861,13 @@ func bxvFilterCases(fails *[]bxvFailure) int {
 
 // concurrency: one evaluator shared by goroutines (run under -race by bxv for C12)
 func bxvConcurrent(fails *[]bxvFailure) int {
-	exprs := []string{"S matches `a.*`", "S not matches `b`", "any L as x { x matches `a` }", "S == abc and S matches `^a`"}
-	d := map[string]interface{}{"S": "abc", "L": []string{"a", "b"}}
+	exprs := []string{"S matches `a.*`", "S not matches `b`", "any L as x { x matches `a` }", "S == abc and S matches `^a`",
+		"all A.B.C as v { v != bad }", "any A.B.C as i, v { v == z and i == 25 }", `all "/A/B/C" as v { v != bad }`, "any A.B.M as k, v { v == 3 }", "any L as x { any A.B.C as y { y == x } }"}
+	var big []string
+	for i := 0; i < 26; i++ {
+		big = append(big, string(rune('a'+i)))
+	}
+	d := map[string]interface{}{"S": "abc", "L": []string{"a", "b"}, "A": map[string]interface{}{"B": map[string]interface{}{"C": big, "M": map[string]int{"p": 1, "q": 2, "r": 3}}}}
 	n := 0
 	for _, e := range exprs {
 		ev, err := CreateEvaluator(e)
@@ -949,6 +954,94 @@ func bxvHistory(fails *[]bxvFailure) int {
 	return n
 }
 
+// non-interference of hidden / unexported fields (C08): two data that differ
+// only there give the same outcome for every expression, and the same filter selection
+type bxvSecretInner struct {
+	Vis    string
+	secret string
+	Skip   int `bexpr:"-" json:"-"`
+}
+type bxvSecret struct {
+	ID     int
+	Vis    string
+	hidden string
+	Skip   string `bexpr:"-" json:"-"`
+	JSkip  string `json:"-"`
+	Ren    string `bexpr:"alias" json:"jalias"`
+	In     bxvSecretInner
+	PIn    *bxvSecretInner
+	L      []bxvSecretInner
+	M      map[string]bxvSecretInner
+	Zero   bxvSecretInner
+}
+
+func bxvHiddenCases(fails *[]bxvFailure) int {
+	mk := func(h string, n int) bxvSecret {
+		in := bxvSecretInner{Vis: "v", secret: h, Skip: n}
+		return bxvSecret{ID: 1, Vis: "v", hidden: h, Skip: h, JSkip: "j", Ren: "r", In: in, PIn: &in, L: []bxvSecretInner{in}, M: map[string]bxvSecretInner{"k": in},
+			Zero: bxvSecretInner{secret: h, Skip: n}}
+	}
+	a, b := mk("", 0), mk("other", 7)
+	sels := []string{"Vis", "hidden", "Skip", "JSkip", "Ren", "alias", "jalias", "In", "In.Vis", "In.secret", "In.Skip", "PIn", "PIn.secret", "L", "L.0", "L.0.secret", "L.0.Skip", "M", "M.k", "M.k.secret", "M.zz", "Zero", "Zero.secret", "Zero.Skip"}
+	ops := []string{"%s == v", "%s != v", "%s == other", "%s == 7", "other in %s", "%s is empty", "%s is not empty", "%s matches `o`", "%s not matches `o`",
+		"any %s as x { x == v }", "all %s as x { x.secret == other }", "any %s as k, x { x.Skip == 7 }", "not %s == other", "%s is empty or %s == other"}
+	optsets := []struct {
+		o []Option
+		d string
+	}{{nil, ""}, {[]Option{WithTagName("json")}, `WithTagName("json")`}, {[]Option{WithUnknownValue("other")}, `WithUnknownValue("other")`}}
+	n := 0
+	for _, s := range sels {
+		for _, op := range ops {
+			e := strings.ReplaceAll(op, "%s", s)
+			for _, os := range optsets {
+				ra, ea, pa, oka := bxvRun(bxvCase{Expr: e, Data: a, Opts: os.o})
+				rb, eb, pb, _ := bxvRun(bxvCase{Expr: e, Data: b, Opts: os.o})
+				if !oka {
+					continue
+				}
+				n++
+				if ra != rb || (ea != nil) != (eb != nil) || (pa != "") != (pb != "") {
+					*fails = append(*fails, bxvFailure{Kind: "mismatch", Expr: e, Opts: os.d, Datum: "two data differing only in unexported fields and fields tagged \"-\"",
+						Got: fmt.Sprintf("hidden=\"\"/0: (%v, %v) %s", ra, ea, pa), Want: fmt.Sprintf("hidden=\"other\"/7: (%v, %v) %s", rb, eb, pb)})
+				}
+				// a selector naming a hidden field never resolves to its content
+				if (strings.HasSuffix(s, "ecret") || s == "hidden" || (strings.HasSuffix(s, "Skip") && os.d != `WithTagName("json")`)) && os.d != `WithUnknownValue("other")` && (e == s+" == other" || e == s+" == 7") {
+					if rb && eb == nil {
+						*fails = append(*fails, bxvFailure{Kind: "mismatch", Expr: e, Opts: os.d, Datum: "hidden field holds the compared value", Got: "true", Want: "error"})
+					}
+				}
+			}
+		}
+	}
+	// filters keep the same positions / keys
+	for _, e := range []string{"In is empty", "Zero is empty", "Vis == v", "hidden == other", "In.secret == other", "not Zero is not empty"} {
+		f, err := CreateFilter(e)
+		if err != nil || f == nil {
+			continue
+		}
+		run := func(x interface{}) string {
+			defer func() { recover() }()
+			r, err := f.Execute(x)
+			if err != nil {
+				return "error"
+			}
+			var ids []int
+			rv := reflect.ValueOf(r)
+			for i := 0; i < rv.Len(); i++ {
+				ids = append(ids, int(rv.Index(i).FieldByName("ID").Int()))
+			}
+			return fmt.Sprint(ids)
+		}
+		a2, b2 := mk("", 0), mk("other", 7)
+		a2.ID, b2.ID = 2, 2
+		n++
+		if x, y := run([]bxvSecret{a, a2}), run([]bxvSecret{b, b2}); x != y {
+			*fails = append(*fails, bxvFailure{Kind: "filter", Expr: e, Datum: "two slices differing only in hidden fields", Got: x, Want: y})
+		}
+	}
+	return n
+}
+
 func TestBxvBattery(t *testing.T) {
 	prop := os.Getenv("BXV_PROP")
 	out := os.Getenv("BXV_OUT")
@@ -970,7 +1063,10 @@ func TestBxvBattery(t *testing.T) {
 		run(bxvOpCases(), true)
 	case "C03":
 		run(bxvBoolCases(), true)
-	case "C05", "C18", "C08", "C07":
+	case "C08":
+		n += bxvHiddenCases(&fails)
+		run(bxvPathCases(), true)
+	case "C05", "C18", "C07":
 		run(bxvPathCases(), true)
 	case "C06":
 		run(bxvCollCases(), true)
